@@ -174,7 +174,7 @@ PROPS = {
                       "forwarding is covered by the C07 scenarios and C08 sessions. Theorem C06_no_panic for shutdown: see C07.",
     },
     "C08": {
-        "n": {"quick": 200, "thorough": 5000},
+        "n": {"quick": 120, "thorough": 5000},
         "cone": ["Bytes", "BytesLemmas", "Regex", "Generated", "Netconf", "NetconfLemmas", "NcSession", "NcSessionLemmas"],
         "rx": True,
         "rule": NC_RULE + " Histories of 1-25 RPCs with 60 ms timeouts and late replies; non-trivial = more than one request.",
@@ -231,6 +231,7 @@ PROPS = {
     },
     "C17": {
         "n": {"quick": 1, "thorough": 1},
+        "exhaustive": True,
         "cone": ["Bytes", "Regex", "Generated", "Channel", "Network", "NetworkAbs", "NetworkLemmas", "Platform", "PlatformLemmas", "Replay"],
         "rx": True,
         "rule": "exhaustive: every advertised platform name and every embedded definition file (documentation example excluded) is loaded with "
